@@ -164,7 +164,7 @@ def _parse_structured_config(config_file: Path, parser: "Callable[[Path], dict]"
 def _parse_thailintignore_file(ignore_file: Path) -> list[str]:
     """Parse .thailintignore file (gitignore-style)."""
     try:
-        content = ignore_file.read_text(encoding="utf-8")
+        content = ignore_file.read_text(encoding="utf-8-sig")  # a byte-order mark is not part of the first pattern
         return extract_patterns_from_content(content)
     except (OSError, UnicodeDecodeError) as e:
         logger.warning("Failed to read .thailintignore file %s: %s", ignore_file, e)
